@@ -415,6 +415,52 @@ func RunC20(c *Ctx) {
 			}
 		}},
 	}
+	// mixed entry points on one Buffer: the large document through one function, the small ones
+	// through another (seeded change C20r7-m2: handler traversals copy the Buffer's whole stack, whose
+	// high-water mark was set by a deep document that went through Valid)
+	handleDeclining := func(buf *rjson.Buffer, d []byte) {
+		if len(d) > 0 && d[0] == '{' {
+			rjson.HandleObjectValues(d, nopObjectHandler{}, buf)
+		} else {
+			rjson.HandleArrayValues(d, nopArrayHandler{}, buf)
+		}
+	}
+	readers = append(readers,
+		struct {
+			name string
+			run  func(vr *rjson.ValueReader, buf *rjson.Buffer, d []byte)
+		}{"Buffer: large via Valid, small via Handle*Values(declining handler)", func(vr *rjson.ValueReader, buf *rjson.Buffer, d []byte) {
+			if len(d) >= 1000 {
+				rjson.Valid(d, buf)
+			} else {
+				handleDeclining(buf, d)
+			}
+		}},
+		struct {
+			name string
+			run  func(vr *rjson.ValueReader, buf *rjson.Buffer, d []byte)
+		}{"Buffer: large via Handle*Values(declining handler), small via SkipValue", func(vr *rjson.ValueReader, buf *rjson.Buffer, d []byte) {
+			if len(d) >= 1000 {
+				handleDeclining(buf, d)
+			} else {
+				rjson.SkipValue(d, buf)
+			}
+		}},
+		struct {
+			name string
+			run  func(vr *rjson.ValueReader, buf *rjson.Buffer, d []byte)
+		}{"Buffer: large via SkipValue, small via Handle*Values(re-entrant handler)", func(vr *rjson.ValueReader, buf *rjson.Buffer, d []byte) {
+			if len(d) >= 1000 {
+				rjson.SkipValue(d, buf)
+				return
+			}
+			hd := reentrantStringHandler{buf}
+			if len(d) > 0 && d[0] == '{' {
+				rjson.HandleObjectValues(d, hd, buf)
+			} else {
+				rjson.HandleArrayValues(d, hd, buf)
+			}
+		}})
 	N := 300
 	if c.Thorough() {
 		N = 3000
